@@ -96,7 +96,47 @@ def line_at(path, off, bgzf):
     return bgzf_line_at(path, off) if bgzf else plain_line_at(path, off)
 
 
+def gfa_layout(text):
+    """A GFA text in another, equally valid layout, chosen by a stable hash of the text: (1) segment by segment, every S line
+    followed by the L lines that leave it - so a link may come BEFORE the S line of the segment it enters; (2) the same graph
+    without a line terminator after its last line; (3) both; (0) as given. Header / other records keep their place at the top."""
+    h = zlib.crc32(text.encode()) % 4
+    if h == 0 or os.environ.get("VERIF_PLAIN_CLI") == "1":
+        return text
+    lines = text.split("\n")
+    final = lines and lines[-1] == ""
+    if final:
+        lines = lines[:-1]
+    if h in (1, 3):
+        S = [l for l in lines if l.startswith("S\t")]
+        L = [l for l in lines if l.startswith("L\t")]
+        O = [l for l in lines if not l.startswith("S\t") and not l.startswith("L\t")]
+        by_from = {}
+        for l in L:
+            by_from.setdefault(l.split("\t")[1], []).append(l)
+        out = list(O)
+        seen = set()
+        for sl in reversed(S):       # last segment first: most links then precede the S line of the segment they enter
+            sid = sl.split("\t")[1]
+            out.append(sl)
+            if sid not in seen:
+                out += by_from.pop(sid, [])
+                seen.add(sid)
+        for rest in by_from.values():      # links of segments without an S line (left as they are)
+            out += rest
+        lines = out
+    text = "\n".join(lines)
+    if final and h == 1:
+        text += "\n"
+    elif final and h in (2, 3):
+        pass      # no terminator after the last line
+    return text
+
+
 def write_text(path, text, storage="plain", block=60000):
+    base = os.path.basename(path)
+    if (base.endswith(".gfa") or base.endswith(".gfa.gz")) and storage in ("plain", "gz") and "\nL\t" in text and not getattr(write_text, "keep_layout", False):
+        text = gfa_layout(text)
     if storage == "plain":
         with open(path, "w", encoding="utf-8") as f:
             f.write(text)
@@ -334,6 +374,14 @@ def run_cli(argv, timeout=20, cwd_rel=None):
                         with open(target + ".gsi", "wb") as f:
                             pickle.dump({"stale_contig": [0, 0]}, f)
 
+    # `gaftools index GAF GFA` without -o writes GAF.gvi: one such call in four finds an index of an earlier run there
+    if not plain and argv and argv[0] == "index" and "-o" not in argv and len(argv) >= 3:
+        target = argv[1] + ".gvi"
+        key = (SALT or CASE or "") + "gvi" + " ".join(os.path.basename(a) for a in argv)
+        if zlib.crc32(key.encode()) % 4 == 1 and not os.path.exists(target) and os.path.isdir(os.path.dirname(target) or "."):
+            with open(target, "wb") as f:
+                pickle.dump({"stale_contig": [0, 0]}, f)
+
     # one call in three is made from inside the data directory with bare relative file names (when all files named on
     # the command line live under the directory of the first one)
     restore_cwd = None
@@ -346,6 +394,15 @@ def run_cli(argv, timeout=20, cwd_rel=None):
             argv = [os.path.relpath(a, base) if os.path.isabs(a) else a for a in argv]
             os.chdir(base)
 
+    # one call in five is made as `gaftools --debug <command> ...` with logging switched on (the harness silences logging
+    # otherwise): log and debug messages belong to standard error, whatever their level and wherever the output goes
+    key = (SALT or CASE or "") + "debug" + " ".join(os.path.basename(a) for a in argv)
+    debug = not plain and zlib.crc32(key.encode()) % 5 == 3
+    saved_disable = logging.root.manager.disable
+    saved_level = logging.getLogger().level
+    if debug:
+        argv = ["--debug"] + list(argv)
+        logging.disable(logging.NOTSET)
     root = logging.getLogger()
     saved_handlers = root.handlers[:]
     old_out, old_err = sys.stdout, sys.stderr
@@ -376,6 +433,9 @@ def run_cli(argv, timeout=20, cwd_rel=None):
         for h in root.handlers[:]:
             if h not in saved_handlers:
                 root.removeHandler(h)
+        if debug:
+            logging.disable(saved_disable)
+            root.setLevel(saved_level)
     return res
 
 
